@@ -165,3 +165,12 @@ Example member_ex :
   /\ print_dot_name (mkQ true false true 0 false true) 4 [134071] = Some [91; 34; 92; 117; 68; 56; 52; 50; 92; 117; 68; 70; 66; 55; 34; 93]
   /\ member_key [91; 34; 92; 117; 68; 56; 52; 50; 92; 117; 68; 70; 66; 55; 34; 93] = Some [55362; 57271].
 Proof. vm_compute. repeat split; reflexivity. Qed.
+
+From V Require Import C01.NumFlag.
+(* the flag on 5 ("5": true), 1000 ("1e3": false), 0.5 minified (".5": false), 1234 ("1234": true) *)
+Example flag_ex :
+  map (fun c => snd (printNonNegativeFloat (fst (fst c)) (snd (fst c)) (snd c)))
+    [(false, 4617315517961601024, [53]); (false, 4652007308841189376, [49; 48; 48; 48]);
+     (true, 4602678819172646912, [48; 46; 53]); (false, 4653142004841086976, [49; 50; 51; 52])]
+  = [true; false; false; true].
+Proof. vm_compute. reflexivity. Qed.
